@@ -14,6 +14,10 @@ pub struct Site {
     pub file: String,
     pub function: String,
     pub msg: String,
+    /// trimmed source text of the panicking line (content, not position: survives unrelated
+    /// edits and tells two `unwrap()`s of one function apart)
+    #[serde(default)]
+    pub code: String,
 }
 
 impl Site {
@@ -255,6 +259,19 @@ fn store_shared_cache(key: &(String, u32), v: &(String, String)) {
     }
 }
 
+/// Source text of a line of a repository file ("" for files outside the repository).
+fn source_line(file: &str, line: u32) -> String {
+    let rel = match strip_repo(file) {
+        Some(r) => r,
+        None => return String::new(),
+    };
+    let p = std::path::Path::new(&repo_root()).join(rel);
+    std::fs::read_to_string(p)
+        .ok()
+        .and_then(|t| t.lines().nth(line.saturating_sub(1) as usize).map(|l| l.trim().chars().take(90).collect::<String>()))
+        .unwrap_or_default()
+}
+
 pub fn install_hook() {
     panic::set_hook(Box::new(|info| {
         let (file, line) = info
@@ -291,10 +308,12 @@ pub fn install_hook() {
                 v
             }
         };
+        let code = source_line(&file, line);
         let site = Site {
             file: sfile,
             function,
             msg: skeleton(&raw_msg),
+            code,
         };
         let quiet = QUIET.with(|q| *q.borrow());
         if !quiet {
@@ -326,6 +345,7 @@ pub fn contain<T>(f: impl FnOnce() -> T) -> Result<T, PanicInfo> {
                     file: "?".into(),
                     function: "?".into(),
                     msg: "panic without hook record".into(),
+                    code: String::new(),
                 },
                 line: 0,
                 raw_msg: String::new(),
